@@ -5,6 +5,7 @@ import (
 	"fmt"
 	"hash/fnv"
 	"io"
+	"syscall"
 )
 
 // ErrInjected is the fault the simulated endpoints inject.
@@ -63,6 +64,22 @@ func (k FaultKind) String() string {
 type Fault struct {
 	Kind FaultKind
 	At   int
+	// Err is the error value the failing call returns (nil: ErrInjected).
+	Err error
+}
+
+// FaultErrors are the error values faults are injected with: the oracle never
+// looks at the identity of the error a library call returns, but a library that
+// singles out particular values must not thereby lose others.  EOF-like values
+// (io.EOF, io.ErrUnexpectedEOF) are deliberately absent: the unchanged library
+// itself treats them as end-of-input indications in two places.
+var FaultErrors = []error{ErrInjected, fmt.Errorf("transport: %w", ErrInjected), syscall.EIO, io.ErrClosedPipe}
+
+func (f Fault) err() error {
+	if f.Err != nil {
+		return f.Err
+	}
+	return ErrInjected
 }
 
 // SimReader is the simulated input endpoint.
@@ -191,7 +208,7 @@ func (r *SimReader) Read(p []byte) (int, error) {
 			r.terminal()
 			r.Delivered = true
 			r.note('P', len(p), 0)
-			return 0, ErrInjected
+			return 0, r.fault.err()
 		}
 		if r.pos+n >= at {
 			n = at - r.pos
@@ -210,7 +227,7 @@ func (r *SimReader) Read(p []byte) (int, error) {
 					r.count(n)
 					r.DeliveredData = true
 					r.note('d', len(p), n)
-					return n, ErrInjected
+					return n, r.fault.err()
 				}
 				// probe: deliver the capped chunk without EOF attached
 				copy(p, r.data[r.pos:r.pos+n])
@@ -227,7 +244,7 @@ func (r *SimReader) Read(p []byte) (int, error) {
 				r.tfired = true
 				r.Delivered = true
 				r.note('T', len(p), 0)
-				return 0, ErrInjected
+				return 0, r.fault.err()
 			}
 			if r.pos < at && r.pos+n > at {
 				n = at - r.pos
@@ -247,7 +264,7 @@ func (r *SimReader) Read(p []byte) (int, error) {
 	if withErr {
 		r.DeliveredData = true
 		r.note('D', len(p), n)
-		return n, ErrInjected
+		return n, r.fault.err()
 	}
 	if r.pos == len(r.data) && r.sch.EOFWithData && !r.faultPendingAtEnd() {
 		r.EOFReturned++
@@ -304,7 +321,7 @@ func (s Seeker) Seek(offset int64, whence int) (int64, error) {
 	if r.fault.Kind == FaultSeek && idx == r.fault.At {
 		r.Delivered = true
 		r.note('S', int(offset), whence)
-		return 0, ErrInjected
+		return 0, r.fault.err()
 	}
 	var np int64
 	switch whence {
